@@ -15,7 +15,8 @@ Inductive bstep :=
 | BTuple (l : list name)
 | BWc | BLwc | BGwc (dot : bool)       (* wc = wildcard, gwc = generic_wildcard: the same symbols *)
 | BRec | BParent
-| BPred (tag : nat) (rep : string) (f : jctx -> res json).    (* a user predicate whose repr() is rep *)
+| BPred (tag : nat) (rep : string) (f : jctx -> res json)     (* a user predicate whose repr() is rep *)
+| BBadIdx.                             (* path[1.5], path[None], path[{}]: unsupported index types *)
 
 Definition dash_char (c : ascii) : ascii := if Ascii.eqb c "_"%char then "-"%char else c.
 Fixpoint dash_name (s : string) : string :=
@@ -35,6 +36,7 @@ Definition to_vertex (dash : bool) (s : bstep) : jvertex :=
   | BWc => VKeyWild | BLwc => VIdxWild | BGwc d => VGenWild d
   | BRec => VRec | BParent => VParent
   | BPred tag _ f => VPred (HUser tag f)
+  | BBadIdx => VKey ""          (* never part of an expression: extend rejects it *)
   end.
 
 Definition compile (e : expr) : jpath := map (to_vertex (e_dash e)) (e_steps e).
@@ -85,6 +87,7 @@ Definition segment (dash : bool) (s : bstep) : string :=
       | String "("%char _ => "[?" ++ rep ++ "]"
       | _ => "[?(" ++ rep ++ ")]"
       end
+  | BBadIdx => "?"
   end.
 
 Definition ends_with_rec (l : list bstep) : bool :=
@@ -97,6 +100,9 @@ Definition render (e : expr) : string :=
 Definition extend (e : expr) (s : bstep) : res expr :=
   match s with
   | BRec => if ends_with_rec (e_steps e) then Exn EPathSyntax else Ok {| e_dash := e_dash e; e_steps := e_steps e ++ [s] |}
+  | BBadIdx => Exn EPathSyntax                                       (* Unsupported indices *)
+  | BAttr raw => if String.eqb raw "shape" then Exn EPathSyntax      (* the attribute name shape is reserved *)
+                 else Ok {| e_dash := e_dash e; e_steps := e_steps e ++ [s] |}
   | _ => Ok {| e_dash := e_dash e; e_steps := e_steps e ++ [s] |}
   end.
 
